@@ -124,6 +124,10 @@ func RunProperty(repo string, cfg *PropertyConfig, kf *KnownFindingsFile, timeou
 			res.Pkg = pkg
 			cr.Units = append(cr.Units, res)
 		}
+		for _, res := range e.LockedUnits(cfg.ID) {
+			res.Pkg = pkg
+			cr.Units = append(cr.Units, res)
+		}
 	}
 	for _, u := range cr.Units {
 		cr.Functions = append(cr.Functions, u.Unit+" ["+u.Kind+"]")
